@@ -43,6 +43,24 @@ def _work_many(payload, skip, report):
     return acc
 
 
+_STICKY = [False]
+
+
+def _work_sticky(payload, skip, report):
+    """Case 'poison' leaves state behind (per call of this function); case 'victim' fails only after it."""
+    from .runner import Acc
+    acc = Acc("SELFTEST")
+    _STICKY[0] = False
+    for i, x in enumerate(payload):
+        report(i)
+        acc.case()
+        if x == "poison":
+            _STICKY[0] = True
+        elif x == "victim" and _STICKY[0]:
+            acc.violation("victim_ok", {"x": x, "i": i}, "bad", "good")
+    return acc
+
+
 def main():
     import wikitextprocessor
     from .fixtures import close_ctx, new_ctx
@@ -63,5 +81,12 @@ def main():
     assert list(res[1][0].viol) == ["returns_in_time"], res[1][0].viol
     res = dict((cid, (r, h)) for cid, r, h in run_chunks(_work_many, [["hang"] * 5 + [1, 1]], nproc=1, case_timeout=1.0))
     assert len(res[0][0].viol["returns"]) == 3 and res[0][0].n == 0, (res[0][0].viol, res[0][0].n)   # abandoned after three hangs
+    # a violation that does not reproduce alone but does when its chunk is run again: chunk-level replay confirms it
+    from .runner import chunk_replay
+    res = dict((cid, (r, h)) for cid, r, h in run_chunks(_work_sticky, [["a", "victim"], ["poison", "b", "victim"]], nproc=2, case_timeout=5.0))
+    assert not res[0][0].viol and len(res[1][0].viol["victim_ok"]) == 1, (res[0][0].viol, res[1][0].viol)
+    v = res[1][0].viol["victim_ok"][0]
+    assert v.get("chunk") is not None and chunk_replay(v) is True, v
+    assert chunk_replay(dict(v, case={"x": "victim", "i": 99})) is False
     print("selftest ok: wikitextprocessor from", wikitextprocessor.__file__)
     return 0
